@@ -422,7 +422,7 @@ impl Prop for C19 {
     }
     fn cases(&self, tier: Tier) -> usize {
         match tier {
-            Tier::Quick => 1500,
+            Tier::Quick => 4000,
             Tier::Thorough => 20000,
         }
     }
